@@ -5,6 +5,8 @@ import os
 import numpy as np
 from hypothesis import strategies as st
 
+from mv import hperm
+
 from mv import gen_atoms, model_atoms as M, ref_lammps
 from mv.quiet import silenced, workdir
 from mv.runner import FuzzPart, HypPart, Violation
@@ -40,9 +42,9 @@ def case(draw, tier="quick"):
                                           cell="any-or-none", extras=False, dups=True,
                                           coords=draw(st.sampled_from(["in-cell", "anywhere"]))))
     # many types: up to 12 rows in a table (two-digit ids)
-    if draw(st.integers(0, 3)) == 0:
+    if draw(hperm.integers(0, 3)) == 0:
         big = draw(st.sampled_from(["atom"] + M.KINDS))
-        rows = draw(st.integers(10, 12))
+        rows = draw(hperm.integers(10, 12))
         if big == "atom":
             from mofun.atomic_masses import ATOMIC_MASSES
             els = list(ATOMIC_MASSES.keys())
@@ -54,23 +56,23 @@ def case(draw, tier="quick"):
                 spec["type_masses"].append(round(ATOMIC_MASSES[e], 6))
                 if spec["pair_coeffs"]:
                     spec["pair_coeffs"].append("lj %d.%d p%d" % (t, t, t))
-            spec["atom_types"] = [draw(st.integers(0, rows - 1)) for _ in spec["atom_types"]]
+            spec["atom_types"] = [draw(hperm.integers(0, rows - 1)) for _ in spec["atom_types"]]
         elif spec[big + "s"] or spec[big + "_coeffs"]:
             if spec[big + "_coeffs"]:
                 spec[big + "_coeffs"] = ["c%d %d.5 %s%d" % (r, r, big[0], r) + ("   # T%d" % r if r % 2 else "") for r in range(rows)]
-            spec[big + "_types"] = [draw(st.integers(0, rows - 1)) for _ in spec[big + "_types"]]
-    if spec["cell"] is not None and draw(st.integers(0, 5)) == 0:
+            spec[big + "_types"] = [draw(hperm.integers(0, rows - 1)) for _ in spec[big + "_types"]]
+    if spec["cell"] is not None and draw(hperm.integers(0, 5)) == 0:
         c = np.array(spec["cell"])
         c[1, 0] = draw(st.sampled_from([1e-4, -1e-4, 2e-6, 0.0]))
         c[2, 0] = draw(st.sampled_from([0.0, 1e-4, 0.0]))
         c[2, 1] = draw(st.sampled_from([0.0, -3e-5, 0.0]))
         spec["cell"] = c.tolist()
-    if draw(st.integers(0, 9)) == 0 and spec["pos"]:
+    if draw(hperm.integers(0, 9)) == 0 and spec["pos"]:
         # hundreds of atoms (ids beyond 127 / 255 / 999 in every section) from a handful of draws
         spec = gen_atoms.inflate(spec, draw(st.sampled_from([20, 40, 140])) // max(1, len(spec["pos"]) // 2) + 2)
     else:
         # charges and coordinates with all six printed decimals in use
-        spec["charges"] = [round(c + (1 if c > 0 else -1) * 1e-6 * draw(st.integers(0, 499)), 6) for c in spec["charges"]]
+        spec["charges"] = [round(c + (1 if c > 0 else -1) * 1e-6 * draw(hperm.integers(0, 499)), 6) for c in spec["charges"]]
     norm = draw(st.booleans())
     if norm:
         spec["pair_coeffs"] = [normalise(c, "pair") for c in spec["pair_coeffs"]]
